@@ -20,6 +20,7 @@ All expected values come out of TLC; Python only drives and projects.
 from __future__ import annotations
 
 import json
+import multiprocessing
 import os
 import re
 import shutil
@@ -506,7 +507,10 @@ def run(ck):
         gjobs += [(f"gu{k}", names3, 2, -1, [k], both) for k in ALL_KINDS]
     replayed = steps = total_edges = ntasks = unvisited = 0
     drift = []
-    with ThreadPoolExecutor(4) as ex, ProcessPoolExecutor(max_workers=16) as pool:
+    # workers are spawned, not forked: a forked worker would inherit the pipes of the TLC
+    # subprocesses running in the threads and keep them open
+    with ThreadPoolExecutor(4) as ex, \
+            ProcessPoolExecutor(max_workers=16, mp_context=multiprocessing.get_context("spawn")) as pool:
         gr = [ex.submit(tlc, tag, nm, nv, size, kinds, rl, True, 4) for (tag, nm, nv, size, kinds, rl) in gjobs]
         inv = [ex.submit(tlc, *j) for j in jobs]
         # -- 3. replay on the real Environment: components are dispatched as soon as their graph is there
